@@ -111,8 +111,16 @@ func run(c *fw.Ctx, idx int) {
 	}
 	ctx := context.Background()
 	self, other := gen.Peer(0), gen.Peer(1)
+	// a quarter of the cases run with a queue of one and a single worker, so that
+	// an operation can be refused because the queue is full
+	smallQueue := r.Chance(1, 4)
 	rig := trk.New(self, 100, 2)
-	defer rig.Close()
+	if smallQueue {
+		rig.Close()
+		rig = trk.New(self, 1, 1)
+	}
+	defer func() { rig.Close() }()
+	holds := map[string]chan struct{}{}
 	cids := make([]cid.Cid, nCids)
 	cidx := map[string]int{}
 	for i := range cids {
@@ -126,6 +134,9 @@ func run(c *fw.Ctx, idx int) {
 	rig.IPFS.SetGate(func(call sim.IPFSCall) sim.Decision {
 		fmu.Lock()
 		defer fmu.Unlock()
+		if ch := holds[call.Cid.KeyString()]; ch != nil && call.Op == "pin" {
+			return sim.Decision{Hold: ch}
+		}
 		if call.Op == "pin" && failPin[call.Cid.KeyString()] {
 			return sim.Decision{Err: fmt.Errorf("ipfs model: scripted pin failure")}
 		}
@@ -209,6 +220,76 @@ func run(c *fw.Ctx, idx int) {
 			failUnpin[cids[i].KeyString()] = true
 			fmu.Unlock()
 			rig.T.Untrack(ctx, cids[i])
+		}
+		if smallQueue {
+			// one operation at a time: only the deliberate overflow below may meet a full queue
+			rig.Quiesce(ctx, 20*time.Second)
+		}
+	}
+	if smallQueue {
+		// overflow: the worker is busy with A (held inside the daemon), B fills the
+		// queue, the pin of X is refused with "queue full" - a failed last operation
+		x := -1
+		for i, f := range facts {
+			if (f.entry == "local" || f.entry == "everywhere") && f.lastOp == "none" && f.daemon == "" {
+				x = i
+				break
+			}
+		}
+		if x >= 0 && rig.Quiesce(ctx, 20*time.Second) {
+			a, b := gen.Cid(390, 0), gen.Cid(391, 1)
+			fmu.Lock()
+			holds[a.KeyString()] = make(chan struct{})
+			fmu.Unlock()
+			for _, fc := range []cid.Cid{a, b} {
+				fp := api.PinCid(fc)
+				fp.ReplicationFactorMin, fp.ReplicationFactorMax = -1, -1
+				rig.St.Add(ctx, fp)
+				rig.T.Track(ctx, fp)
+				if fc.Equals(a) {
+					// wait until the worker sits in the daemon with A
+					for w := 0; w < 2000 && rig.IPFS.Inflight() == 0; w++ {
+						time.Sleep(time.Millisecond)
+					}
+				}
+			}
+			err := rig.T.Track(ctx, mkPin(x, facts[x]))
+			fmu.Lock()
+			close(holds[a.KeyString()])
+			delete(holds, a.KeyString())
+			fmu.Unlock()
+			if err != nil {
+				facts[x].lastOp = "pin-failed" // refused: queue full
+				c.Cover("situation/pin-refused-queue-full")
+				// everything that was accepted completes (A and B end up on the daemon);
+				// after that nothing is pending any more, whatever the table says
+				done := false
+				for w := 0; w < 200 && !done; w++ {
+					done = rig.IPFS.ModeOf(a) != "" && rig.IPFS.ModeOf(b) != "" && rig.IPFS.Inflight() == 0
+					if !done {
+						time.Sleep(100 * time.Millisecond)
+					}
+				}
+				if done {
+					stuck := true
+					var st api.TrackerStatus
+					for w := 0; w < 50 && stuck; w++ {
+						st = rig.T.Status(ctx, cids[x]).Status
+						stuck = class(st) == "pending"
+						if stuck {
+							time.Sleep(100 * time.Millisecond)
+						}
+					}
+					c.Eval("queue-full/refused-operation-status")
+					if stuck {
+						c.Violation("C06/status-pending-but-nothing-is-pending/"+st.String(), fmt.Sprintf("the pin of c%d was refused (%v); every accepted operation has completed and the daemon is idle, yet 5 s later Status still says %s", x, err, st), nil)
+						return
+					}
+				}
+			} else {
+				facts[x].lastOp = "pin-ok"
+				facts[x].daemon = facts[x].mode.String()
+			}
 		}
 	}
 	if !rig.Quiesce(ctx, 20*time.Second) {
